@@ -151,11 +151,20 @@ def ev_source(rec, ins, nu, purity, indist):
     return out
 
 
-def compare_real(chk, name, rec, ins, nu, purity, indist, exact_in, exact_out, tol=1e-9):
+def thresholded(exact_in, t):
+    """probability_threshold: input patterns below the threshold are dropped and the rest renormalised"""
+    kept = {k: v for k, v in exact_in.items() if v >= t}
+    tot = sum(kept.values())
+    return {k: v / tot for k, v in kept.items()}
+
+
+def compare_real(chk, name, rec, ins, nu, purity, indist, exact_in, exact_out, tol=1e-9, threshold=None):
     import lightworks as lw
     from lightworks import emulator as emu
     c = build_real(rec)
     src = emu.Source(brightness=float(nu), purity=float(purity), indistinguishability=float(indist))
+    if threshold is not None:
+        src.probability_threshold = float(threshold)
     script = {"module": "LwSource", "config": name, "circuit": rec, "input": list(ins), "brightness": str(nu), "purity": str(purity), "indistinguishability": str(indist)}
     sig = {"call": "Source/Sampler"}
     bad = 0
@@ -171,6 +180,8 @@ def compare_real(chk, name, rec, ins, nu, purity, indist, exact_in, exact_out, t
             if abs(got.get(k, 0.0) - float(exact_in.get(k, 0))) > tol:
                 bad += chk.violation("input_statistics", "%s: P(emission pattern %s) = %.9g, specification %.9g" % (name, k, got.get(k, 0.0), float(exact_in.get(k, 0))), script, sig)
                 break
+    if exact_out is None:
+        return bad
     for b in ("permanent", "slos"):
         d = emu.Sampler(c, lw.State(list(ins)), source=src, backend=b).probability_distribution
         got = {tuple(s.s): p for s, p in d.items()}
@@ -195,7 +206,7 @@ def run(tier):
               (F(3, 4), F(1, 7), F(3, 4))]
     calib = 0.0
     for cname, ins in (GRID_T if th else GRID_Q):
-        plist = params if th else [params[0], params[5], rng.choice(params[1:5]), params[4]]
+        plist = params if th else [params[0], params[1], params[5], rng.choice(params[2:5]), params[4]]
         if sum(ins) <= 1 and not th:
             plist = [params[5], params[2]]         # few-photon inputs: imperfect purity / brightness must still show
         for nu, x, pi in plist:
@@ -208,6 +219,14 @@ def run(tier):
             chk.sample({"circuit": cname, "input": ins, "brightness": str(nu), "purity": str(purity), "indistinguishability": str(indist),
                         "emission patterns": len(exact_in), "output states": len(exact_out)})
             compare_real(chk, name, rec, ins, nu, purity, indist, exact_in, exact_out)
+            # probability_threshold: the kept input patterns, renormalised (the output mixture of the kept patterns is C04's business)
+            if len(exact_in) > 2:
+                ws = sorted(set(exact_in.values()))
+                t = (ws[0] + ws[1]) / 2 if len(ws) > 1 else None
+                if t is not None and t > 0:
+                    chk.count(key=name + "/threshold")
+                    chk.extra["probability_threshold_cases"] = chk.extra.get("probability_threshold_cases", 0) + 1
+                    compare_real(chk, name + "_thr", rec, ins, nu, purity, indist, thresholded(exact_in, t), None, threshold=t)
             # calibration of the evaluator on the rational grid
             e = ev_source(rec, ins, float(nu), float(purity), float(indist))
             for k in set(e) | set(exact_out):
